@@ -22,6 +22,14 @@ def main() -> int:
     if a.replay:
         rp = json.load(open(a.replay))
         prop = rp["property"]
+        want = (rp.get("case") or {}).get("_env") if isinstance(rp.get("case"), dict) else None
+        if want and core.run_environment() != want and not os.environ.get("JMON_REPLAY_REEXEC"):
+            # the case was observed under other interpreter settings (hash seed, -O): start again under those
+            env = dict(os.environ, JMON_REPLAY_REEXEC="1")
+            env.pop("PYTHONOPTIMIZE", None)
+            env["PYTHONHASHSEED"] = "0"
+            env.update(want)
+            os.execve(sys.executable, [sys.executable, "-m", "jmon.run", "--replay", a.replay], env)
         mod = importlib.import_module(f"jmon.props.{prop.lower()}")
         core.load_joserfc()
         ctx = core.Ctx(prop, "quick", int(rp.get("seed", 0)), 0, 1, 600.0)
